@@ -155,7 +155,9 @@ func CompareOut(s *sg.Schema, in, out any, o OutOpts) []OutDiff {
 							if !jsonx.Equal(outV, p.S.Default) {
 								add(pp, "default", fmt.Sprintf("absent property decoded to %s, default is %s", jsonx.Marshal(outV), jsonx.Marshal(p.S.Default)))
 							}
-						} else if !IsEmptyValue(p.S.Default) {
+						} else if !IsEmptyValue(p.S.Default) || (rp != nil && len(rp.Types) == 0 && !rp.HasEnum && p.S.Default != nil) {
+							// omitempty hides a zero value of a typed field, but never a non-nil interface{}: an untyped
+							// property that took its (zero) default shows it
 							add(pp, "default", fmt.Sprintf("absent property not set to default %s", jsonx.Marshal(p.S.Default)))
 						}
 					}
